@@ -189,7 +189,9 @@ def run(ctx):
             continue
         for ri in range(4):
             g = opgen.OpGen(rng, case.ir, max_depth=rng.choice([2, 3]))
-            doc = g.document(n_ops=1)
+            # mutations take the serial path, which has its own continuation logic
+            kinds = ["mutation"] if case.ir.mutation and rng.random() < 0.4 else None
+            doc = g.document(n_ops=1, kinds=kinds)
             text = opgen.document_text(doc)
             op = doc.operations[0]
             variables = opgen.variable_values(rng, case.sg, op, nested=doc.nested_vars)
